@@ -89,6 +89,21 @@ def model_driver_path(fam="kick"):
 
 # ------------------------------------------------------------------------------------ context
 
+class Downgradable:
+    """the generated files of a check whose failing translator may be downgraded to the correspondence:
+    a list of names, or {"all_except": [names]} (every generated file of the check's closure but these)"""
+
+    def __init__(self, spec):
+        self.names = set(spec) if isinstance(spec, list) else set()
+        self.excluded = set(spec.get("all_except", [])) if isinstance(spec, dict) else None
+
+    def __contains__(self, g):
+        return g in self.names or (self.excluded is not None and g not in self.excluded)
+
+    def __bool__(self):
+        return bool(self.names) or self.excluded is not None
+
+
 class Ctx:
     def __init__(self, pid, tier, seed, level="proof"):
         self.pid, self.tier, self.seed, self.level = pid, tier, seed, level
@@ -96,9 +111,9 @@ class Ctx:
         # lib/downgradable.json, decided by the experiment described there
         try:
             with open(os.path.join(os.path.dirname(os.path.abspath(__file__)), "downgradable.json")) as f:
-                self.downgradable = set(json.load(f).get(pid, []))
+                self.downgradable = Downgradable(json.load(f).get(pid))
         except (OSError, ValueError):
-            self.downgradable = set()
+            self.downgradable = Downgradable(None)
         self.rng = random.Random(seed * 1000003 + int(hashlib.sha1(pid.encode()).hexdigest()[:6], 16))
         self.t0 = time.time()
         self.evaluations = 0
@@ -246,7 +261,7 @@ def generic_downgrade(ctx, coq, disagreements, kf):
     if mode == "none":
         return coq
     failed = [g for g, s in coq.get("gen", {}).items() if s.startswith("failed")]
-    allowed = set(getattr(ctx, "downgradable", ()) or ())
+    allowed = getattr(ctx, "downgradable", None) or ()
     if not failed or not (mode == "all" or all(g in allowed for g in failed)):
         return coq
     pr = coq.get("props", {})
